@@ -34,7 +34,7 @@ CapOf(c) == CASE c = "in" -> cfg.cap
               [] c = "vals" -> cfg.par
 Input == cfg.inputs[1]
 Bad(x) == cfg.mode # "pure" /\ x \in cfg.fail
-Yes(x) == x \in cfg.pred
+Yes(x) == x \in P!YesSet(cfg)
 Empty == P!MEmpty(cfg.monoid)
 Combine(a, x) == P!MOp(cfg.monoid, a, x)
 
